@@ -197,6 +197,16 @@ int main(void)
 	for (i = 0; i < MAXLEN + 1; i++)
 		nm[i] = (char) IN.name[i];
 #endif
+#ifdef EOFVEC
+	/* BOUND: EOFVEC fixes the name to the 6 bytes the solver found in the symbolic CHECK_EOF query (legacy signed hash 0xfffffffe) */
+	{
+		static const unsigned char v[6] = { 0xba, 0xa9, 0xa1, 0x76, 0x0b, 0xde };
+		for (i = 0; i < 6; i++) {
+			IN.name[i] = v[i];
+			nm[i] = (char) v[i];
+		}
+	}
+#endif
 	for (i = 0; i < 4; i++)
 		seed[i] = IN.seed[i];
 #ifdef SEED0
